@@ -108,6 +108,17 @@ def register5(E):
     @R(BT + r'range::<')
     def _(e, c, a):
         m = bm(a[0]); r = a[1]
+        if isinstance(r, Agg) and r.ty == 'tup' and len(r.f) == 2 and all(isinstance(x, Enum) and x.ty == 'Bound' for x in r.f):
+            def ok(k):
+                lo_b, hi_b = r.f
+                if lo_b.v != 'Unbounded':
+                    o = e.cmp3(k, lo_b.f[0])
+                    if o == 'Less' or (o == 'Equal' and lo_b.v == 'Excluded'): return False
+                if hi_b.v != 'Unbounded':
+                    o = e.cmp3(k, hi_b.f[0])
+                    if o == 'Greater' or (o == 'Equal' and hi_b.v == 'Excluded'): return False
+                return True
+            return It('list', l=[Agg([Ref([k], 0), Ref(cell, 0)], 'tup') for k, cell in m.items if ok(k)], pos=0)
         def after_lo(k):
             if 'RangeFull' in r.ty or 'RangeTo' in r.ty: return True
             return e.cmp3(k, r.f[0]) != 'Less'
